@@ -244,3 +244,43 @@ def faults(ctx, prop, mod):
     ctx.cov['fault_sites'] = sorted('%s/%s#%d/%s' % c for c in combos)[:400]
     if evals == 0:
         mod.die('fault driver injected nothing (dead driver)')
+
+
+def noninterference(ctx, prop, mod):
+    """C16: NI as a state invariant of the spec (TLC, every reachable state) + forked paired replay on the code"""
+    mod.build(ctx)
+    fams = [('lock', {}), ('recover', {}), ('otp', {'MaxIss': 7})] + ([('login', {})] if ctx.tier == 'thorough' else [])
+    for fam, consts in fams:
+        c = dict(consts)
+        if ctx.tier == 'thorough':
+            c['MaxDepth'] = 7
+        mod.tlc_mc(ctx, fam, c, extra=['INVARIANT NoInterference'])
+    plan = [('core', 150, 25), ('full', 60, 25)] if ctx.tier == 'quick' else [('core', 3000, 40), ('full', 600, 40), ('twofa', 300, 30)]
+    pairs, by = 0, {}
+    for fam, n, depth in plan:
+        res = os.path.join(ctx.tmp, 'ni-%s.json' % fam)
+        mod.run([ctx.bin, 'ni', '-family', fam, '-n', str(n), '-depth', str(depth), '-seed', str(ctx.seed), '-out', res], 3000)
+        r = json.load(open(res))
+        pairs += r['pairs']
+        for k, v in r['by_clause'].items():
+            by[k] = by.get(k, 0) + v
+        for d in r['diffs'][:3]:
+            # determinism: re-execute the recorded pair twice
+            df = os.path.join(ctx.tmp, 'ni-diff.json')
+            json.dump(d, open(df, 'w'))
+            import subprocess
+            codes = [subprocess.run([ctx.bin, 'ni', '-replay', df], stdout=subprocess.PIPE, stderr=subprocess.STDOUT, env=mod.ENV).returncode
+                     for _ in range(2)]
+            if codes == [1, 1]:
+                violation(ctx, prop, 'ni:' + d['clause'], dict(diff=d, replay_cmd='abdrive ni -replay <this file\'s diff object>'))
+                break
+            else:
+                print('check: NI difference did not reproduce twice; not a verdict', file=__import__('sys').stderr)
+        if ctx.violations:
+            break
+    ctx.cov['paired_runs'] = pairs
+    ctx.cov['pairs_by_clause'] = by
+    ctx.cov['traces_validated_against_impl'] += pairs
+    ctx.cov['samples'] = [dict(clause=k, pairs=v) for k, v in sorted(by.items())] or ['none']
+    if pairs == 0 or len(by) < 3:
+        mod.die('paired replay exercised %d clauses only (dead driver)' % len(by))
